@@ -10,13 +10,16 @@ import (
 	"crypto/tls"
 	"fmt"
 	"io"
+	"bufio"
 	"math/rand"
+	"net"
 	"net/http"
 	"net/http/httptest"
 	"net/url"
 	"strconv"
 	"strings"
 	"sync"
+	"sync/atomic"
 	"time"
 
 	"github.com/fabiolb/fabio/config"
@@ -107,6 +110,15 @@ func coqReq(q rdesc) string {
 }
 func coqURL(u *url.URL) string {
 	return vh.App("mkUrl", vh.HxS(u.Scheme), vh.HxS(u.Host), vh.HxS(u.Path), vh.HxS(u.RawPath), vh.HxS(u.RawQuery))
+}
+
+func isASCII(s string) bool {
+	for i := 0; i < len(s); i++ {
+		if s[i] >= 0x80 {
+			return false
+		}
+	}
+	return true
 }
 
 func uri(wire, query string) string {
@@ -409,6 +421,179 @@ func main() {
 	}
 	for i := 0; i < run.Scale(250, 5000); i++ {
 		serveOne("serve-self-redirect")
+	}
+
+	// ---------- 3a. requests with header fields, over a socket, to a real http.Server ----------
+	// A listener stands behind the host:port of the redirect templates and counts accepted
+	// connections: "no upstream is contacted" is observed, not inferred.
+	{
+		ln, err := net.Listen("tcp", "127.0.0.1:0")
+		if err != nil {
+			panic(err)
+		}
+		var contacts int64
+		go func() {
+			for {
+				c, err := ln.Accept()
+				if err != nil {
+					return
+				}
+				atomic.AddInt64(&contacts, 1)
+				go func(c net.Conn) {
+					c.SetDeadline(time.Now().Add(2 * time.Second))
+					br := bufio.NewReader(c)
+					for { // read the request head
+						l, err := br.ReadString('\n')
+						if err != nil || l == "\r\n" {
+							break
+						}
+					}
+					io.WriteString(c, "HTTP/1.1 200 OK\r\nContent-Length: 0\r\nConnection: close\r\n\r\n")
+					c.Close()
+				}(c)
+			}
+		}()
+		backend := ln.Addr().String()
+		var curTbl atomic.Value // route.Table
+		pick, match := route.Picker["rr"], route.Matcher["prefix"]
+		tr := &countingRT{}
+		px := &proxy.HTTPProxy{Config: config.Proxy{}, Transport: tr, Lookup: func(req *http.Request) *route.Target {
+			return curTbl.Load().(route.Table).Lookup(req, "", pick, match, gc, false)
+		}}
+		srv := httptest.NewServer(px)
+		upgrades := []string{"", "", "websocket", "Websocket", "WebSocket", "h2c"}
+		accepts := []string{"", "", "text/event-stream", "text/html", "text/event-stream, */*"}
+		conns := []string{"", "Upgrade", "keep-alive", "close"}
+		others := [][2]string{{"User-Agent", "verif/1"}, {"X-Foo", "bar"}, {"Cookie", "a=b"}, {"Sec-WebSocket-Key", "dGhlIHNhbXBsZSBub25jZQ=="}, {"Sec-WebSocket-Version", "13"}, {"Cache-Control", "no-cache"}, {"Accept-Encoding", "gzip"}}
+		for i := 0; i < run.Scale(260, 6000); i++ {
+			// 1-2 redirect routes whose templates point at the listener (literally or through $host)
+			var lines []string
+			var descs []tdesc
+			n := 1 + r.Intn(2)
+			for id := 0; id < n; id++ {
+				th := []string{backend, backend, "$host"}[r.Intn(3)]
+				tmpl := []string{"http", "http", "https"}[r.Intn(3)] + "://" + th + tmplPaths[r.Intn(len(tmplPaths))] + tmplQueries[r.Intn(len(tmplQueries))]
+				u, err := url.Parse(tmpl)
+				if err != nil {
+					continue
+				}
+				src := []string{"/", "/x", "foo.com/"}[id%3]
+				if id == 1 {
+					src = []string{"foo.com/", "*/", "/x"}[r.Intn(3)]
+				}
+				code := []string{"301", "302", "307", "308"}[r.Intn(4)]
+				lines = append(lines, fmt.Sprintf("route add svc%d %s %s opts \"redirect=%s\"", len(descs), src, tmpl, code))
+				descs = append(descs, tdesc{id: len(descs), tmpl: tmpl, u: u})
+			}
+			if len(lines) == 0 {
+				continue
+			}
+			text := strings.Join(lines, "\n")
+			tbl, err := route.NewTable(bytes.NewBufferString(text))
+			if err != nil {
+				run.Exclude("route table rejected")
+				continue
+			}
+			idOf := map[*route.Target]int{}
+			okTbl := true
+			for _, rts := range tbl {
+				for _, rt := range rts {
+					for _, t := range rt.Targets {
+						var id int
+						fmt.Sscanf(t.Service, "svc%d", &id)
+						if id >= len(descs) {
+							okTbl = false
+							continue
+						}
+						descs[id].code = t.RedirectCode
+						idOf[t] = id
+					}
+				}
+			}
+			if !okTbl || len(idOf) != len(descs) {
+				run.Exclude("route table rejected") // two routes with the same source collapse into one
+				continue
+			}
+			curTbl.Store(tbl)
+			host := []string{backend, backend, "foo.com", "FOO.com"}[r.Intn(4)]
+			wire := randWire(r, []string{"", "/x"}[r.Intn(2)])
+			var hs [][2]string
+			if v := upgrades[r.Intn(len(upgrades))]; v != "" {
+				hs = append(hs, [2]string{"Upgrade", v})
+			}
+			if v := accepts[r.Intn(len(accepts))]; v != "" {
+				hs = append(hs, [2]string{"Accept", v})
+			}
+			if v := conns[r.Intn(len(conns))]; v != "" {
+				hs = append(hs, [2]string{"Connection", v})
+			}
+			xfp := []string{"", "", "http", "https"}[r.Intn(4)]
+			if xfp != "" {
+				hs = append(hs, [2]string{[]string{"X-Forwarded-Proto", "x-forwarded-proto"}[r.Intn(2)], xfp})
+			}
+			for k := r.Intn(3); k > 0; k-- {
+				hs = append(hs, others[r.Intn(len(others))])
+			}
+			r.Shuffle(len(hs), func(a, b int) { hs[a], hs[b] = hs[b], hs[a] })
+			q, ok := mkReq(host, wire, queries[r.Intn(len(queries))], xfp, false)
+			if !ok || strings.ContainsAny(uri(q.wire, q.query), " \x7f") || !isASCII(uri(q.wire, q.query)) {
+				run.Exclude("request line net/http's server would refuse")
+				continue
+			}
+			var cands []string
+			for _, c := range route.VerifC13Candidates(tbl, httpReq(q), pick, match, gc) {
+				if c == nil {
+					cands = append(cands, vh.None)
+				} else {
+					cands = append(cands, vh.Some(coqTarget(descs[idOf[c]])))
+				}
+			}
+			tr.mu.Lock()
+			hitsBefore := tr.n
+			tr.mu.Unlock()
+			contactsBefore := atomic.LoadInt64(&contacts)
+			c, err := net.Dial("tcp", srv.Listener.Addr().String())
+			if err != nil {
+				panic(err)
+			}
+			c.SetDeadline(time.Now().Add(5 * time.Second))
+			var sb strings.Builder
+			sb.WriteString("GET " + uri(q.wire, q.query) + " HTTP/1.1\r\nHost: " + host + "\r\n")
+			var coqH []string
+			for _, h := range hs {
+				sb.WriteString(h[0] + ": " + h[1] + "\r\n")
+				coqH = append(coqH, vh.Pair(vh.HxS(h[0]), vh.HxS(h[1])))
+			}
+			sb.WriteString("\r\n")
+			io.WriteString(c, sb.String())
+			resp, rerr := http.ReadResponse(bufio.NewReader(c), nil)
+			c.Close()
+			tr.mu.Lock()
+			hits := tr.n - hitsBefore
+			tr.mu.Unlock()
+			cont := int(atomic.LoadInt64(&contacts) - contactsBefore)
+			sample := map[string]interface{}{"routes": text, "host": host, "request": uri(q.wire, q.query), "headers": hs, "upstream_hits": hits, "backend_connections": cont}
+			if rerr != nil {
+				run.Violation(run.NextID(), fmt.Sprintf("request to a redirect route got no HTTP response (%v); transport calls %d, connections to the template's host %d", rerr, hits, cont), sample)
+				continue
+			}
+			sample["status"], sample["location"] = resp.StatusCode, resp.Header.Get("Location")
+			_, hasLoc := resp.Header["Location"]
+			var impl string
+			switch {
+			case hasLoc:
+				impl = vh.App("RRedirect", vh.Z(int64(resp.StatusCode)), vh.HxS(resp.Header.Get("Location")))
+			case resp.StatusCode == 404 && hits+cont == 0:
+				impl = "RNoRoute"
+			default:
+				run.Violation(run.NextID(), fmt.Sprintf("request to a redirect route answered %d without Location; transport calls %d, connections to the template's host %d", resp.StatusCode, hits, cont), sample)
+				continue
+			}
+			run.Add("serve-headers-socket", vh.App("CServeH", vh.List(coqH), vh.List(cands), vh.HxS(host), vh.HxS(q.u.Path), vh.HxS(q.u.RawPath), vh.HxS(q.u.RawQuery),
+				"false", impl, vh.Nat(hits), vh.Nat(cont)), sample)
+		}
+		srv.Close()
+		ln.Close()
 	}
 
 	// ---------- 3b. histories: several requests through ONE table / ONE target object ----------
